@@ -162,11 +162,11 @@ func VH_C13_scan_eq() {
 }
 
 //verif:shards 8
-//verif:bounds as VH_C13_scan_min with two keys (lower, upper); quick tier: trees of <= 5 entries
+//verif:bounds as VH_C13_scan_min with two keys (lower, upper); trees of <= 5 entries (thorough: <= 7)
 func VH_C13_scan_range() {
 	e, in := vhIndexSetup()
-	if len(e.ents) > 5 && verifTier() == 0 {
-		// two free keys over the 8-entry shape is a thorough-tier bound
+	if len(e.ents) > 5+2*verifTier() {
+		// two free keys: trees of <= 5 entries (thorough: <= 7)
 		verifReach("end")
 		return
 	}
